@@ -76,6 +76,74 @@ func exchangeSettersReplace(p *Prog, r *Reporter) {
 // dealt with the registered-filter wrapper first: the same value is tested for *CachedFilter in a dominating block and
 // the wrapper branch never reaches the relation test. Otherwise a registered relation filter loses its target there.
 func relationAssertUnwrapped(p *Prog, r *Reporter) {
+	// wrapperHandledAt: the *CachedFilter wrapper of parameter par has been dealt with on every path to block at:
+	// a comma-ok test of par for *CachedFilter dominates `at` and its ok-branch never reaches `at`
+	wrapperHandledAt := func(par *ssa.Parameter, at *ssa.BasicBlock) bool {
+		for _, ref := range *par.Referrers() {
+			tc, ok := ref.(*ssa.TypeAssert)
+			if !ok || typeName(tc.AssertedType) != "CachedFilter" || !tc.CommaOk {
+				continue
+			}
+			if !(tc.Block() == at || dominatesBlock(tc.Block(), at)) {
+				continue
+			}
+			for _, r2 := range *tc.Referrers() {
+				ex, ok := r2.(*ssa.Extract)
+				if !ok || ex.Index != 1 {
+					continue
+				}
+				for _, r3 := range *ex.Referrers() {
+					iff, ok := r3.(*ssa.If)
+					if !ok {
+						continue
+					}
+					t := iff.Block().Succs[0]
+					if t != at && !reaches(t, at) {
+						return true
+					}
+				}
+			}
+		}
+		return false
+	}
+	// unwrappedAtCalls: fn is unexported and every call of it passes, for parameter idx, a Filter parameter of the caller
+	// whose wrapper has been handled at the call (or, recursively, is itself only called that way), or a value that is not
+	// a parameter (a stored filter: registration refuses wrapped filters, queries store the inner one)
+	var unwrappedAtCalls func(fn *ssa.Function, idx int, d int) bool
+	unwrappedAtCalls = func(fn *ssa.Function, idx int, d int) bool {
+		if d > 2 || fn.Object() == nil || fn.Object().Exported() {
+			return false
+		}
+		k := 0
+		for _, g := range p.Funcs {
+			if g.Synthetic != "" {
+				continue // wrappers and thunks only forward
+			}
+			for _, site := range callsIn(g) {
+				if !isCallTo(site, fn) || idx >= len(site.Common().Args) {
+					continue
+				}
+				k++
+				a := site.Common().Args[idx]
+				if ap, ok := a.(*ssa.Parameter); ok {
+					if wrapperHandledAt(ap, site.Block()) {
+						continue
+					}
+					j := -1
+					for i, q := range g.Params {
+						if q == ap {
+							j = i
+						}
+					}
+					if j >= 0 && unwrappedAtCalls(g, j, d+1) {
+						continue
+					}
+					return false
+				}
+			}
+		}
+		return k > 0
+	}
 	n := 0
 	for _, fn := range p.Funcs {
 		if fn.Pkg == nil || fn.Pkg.Pkg.Name() != "ecs" {
@@ -92,37 +160,19 @@ func relationAssertUnwrapped(p *Prog, r *Reporter) {
 					continue
 				}
 				n++
-				guarded := false
-				for _, ref := range *par.Referrers() {
-					tc, ok := ref.(*ssa.TypeAssert)
-					if !ok || typeName(tc.AssertedType) != "CachedFilter" || !tc.CommaOk {
-						continue
-					}
-					if !(tc.Block() == ta.Block() || dominatesBlock(tc.Block(), ta.Block())) {
-						continue
-					}
-					// the branch on tc's ok flag
-					for _, r2 := range *tc.Referrers() {
-						ex, ok := r2.(*ssa.Extract)
-						if !ok || ex.Index != 1 {
-							continue
-						}
-						for _, r3 := range *ex.Referrers() {
-							iff, ok := r3.(*ssa.If)
-							if !ok {
-								continue
-							}
-							t := iff.Block().Succs[0]
-							if t != ta.Block() && !reaches(t, ta.Block()) {
-								guarded = true
-							}
-						}
+				idx := -1
+				for i, q := range fn.Params {
+					if q == par {
+						idx = i
 					}
 				}
 				construct := fmt.Sprintf("relation test on parameter %s", par.Name())
-				if guarded {
+				switch {
+				case wrapperHandledAt(par, ta.Block()):
 					r.OK(p.FuncName(fn), construct, p.Pos(ta.Pos()), "the registered-filter wrapper is handled before and never reaches the relation test")
-				} else {
+				case idx >= 0 && unwrappedAtCalls(fn, idx, 0):
+					r.OK(p.FuncName(fn), construct, p.Pos(ta.Pos()), "every caller of this unexported function has handled the registered-filter wrapper before the call")
+				default:
 					r.Bad(p.FuncName(fn), construct, p.Pos(ta.Pos()), "the filter parameter is tested for *RelationFilter without the *CachedFilter wrapper having been handled first: a registered relation filter is not a *RelationFilter, so its target is ignored here")
 				}
 			}
@@ -443,6 +493,9 @@ func (p *Prog) targetLeaves(v ssa.Value, d int, seen map[ssa.Value]bool, out *[]
 		}
 		k := 0
 		for _, g := range p.Funcs {
+			if g.Synthetic != "" {
+				continue // wrappers and thunks only forward
+			}
 			for _, site := range callsIn(g) {
 				if isCallTo(site, fn) && idx >= 0 && idx < len(site.Common().Args) {
 					k++
@@ -845,6 +898,10 @@ func queryIntParamsRangeChecked(p *Prog, r *Reporter) {
 					}
 					n++
 					construct := fmt.Sprintf("%s converted to %s", par.Name(), tt.Name())
+					if bad != "" && boundedAtCalls(p, fn, par, 0) {
+						r.OK(p.FuncName(fn), construct, p.Pos(cv.Pos()), "every caller of this unexported method passes a value that is known to be at most MaxUint32 at the call")
+						continue
+					}
 					if bad == "" {
 						r.OK(p.FuncName(fn), construct, p.Pos(cv.Pos()), "the int parameter is known to be at most MaxUint32 wherever it reaches the conversion")
 					} else {
@@ -857,4 +914,61 @@ func queryIntParamsRangeChecked(p *Prog, r *Reporter) {
 	if n == 0 {
 		r.Anchor("a Query method converting an int parameter to a 32-bit type")
 	}
+}
+
+// intParamBoundFlow: facts "par <= MaxUint32" in fn.
+func intParamBoundFlow(fn *ssa.Function, par *ssa.Parameter) *MustFlow {
+	mf := &MustFlow{Fn: fn, EdgeGen: func(b *ssa.BasicBlock, k int) bool {
+		atom, holds, ok := edgeCond(b, k)
+		if !ok {
+			return false
+		}
+		rel, c, ok := boundOnEdge(atom, holds, func(v ssa.Value) bool { return v == par })
+		return ok && impliesAtMost(rel, c, 1<<32-1)
+	}}
+	mf.Run()
+	return mf
+}
+
+// boundedAtCalls: fn is unexported and at every call the argument for par is not derived from an unbounded int parameter
+// of the caller: it is a caller's parameter known ≤ MaxUint32 at the call (or bounded at the caller's callers), or not a
+// parameter at all.
+func boundedAtCalls(p *Prog, fn *ssa.Function, par *ssa.Parameter, d int) bool {
+	if d > 2 || fn.Object() == nil || fn.Object().Exported() {
+		return false
+	}
+	idx := -1
+	for i, q := range fn.Params {
+		if q == par {
+			idx = i
+		}
+	}
+	k := 0
+	for _, g := range p.Funcs {
+		if g.Synthetic != "" {
+			continue // wrappers and thunks only forward
+		}
+		for _, site := range callsIn(g) {
+			if !isCallTo(site, fn) || idx < 0 || idx >= len(site.Common().Args) {
+				continue
+			}
+			k++
+			a := stripConvs(site.Common().Args[idx])
+			ap, ok := a.(*ssa.Parameter)
+			if !ok {
+				if _, isPhi := a.(*ssa.Phi); isPhi {
+					return false // not followed
+				}
+				continue
+			}
+			if intParamBoundFlow(g, ap).Before(site.(ssa.Instruction)) {
+				continue
+			}
+			if boundedAtCalls(p, g, ap, d+1) {
+				continue
+			}
+			return false
+		}
+	}
+	return k > 0
 }
